@@ -25,6 +25,9 @@ import hashlib
 import os
 
 HAND_MODELLED = ("_apply_infix", "_infix_prepare_arg")
+# exception classes of pysmt/exceptions.py -> Mk.Err
+RAISES = {"PysmtModeError": ".mode", "UnsupportedOperatorError": ".unsupported",
+          "PysmtValueError": ".value", "PysmtTypeError": ".type"}
 
 
 class Untranslatable(Exception):
@@ -188,7 +191,7 @@ class Translator:
                 else:
                     raise Untranslatable("assert " + ast.dump(t))
             elif isinstance(s, ast.Raise) and isinstance(s.exc, ast.Call) and isinstance(s.exc.func, ast.Name):
-                out.append("(.raise %s)" % lean_str(s.exc.func.id))
+                out.append("(.raise %s)" % RAISES.get(s.exc.func.id, ".other"))
             else:
                 raise Untranslatable("statement " + ast.dump(s))
         return out
@@ -221,14 +224,15 @@ def infix_methods(repo):
 
 
 def table(repo):
-    """[(name, params, [lean statement], lineno)]"""
+    """[(name, params, varargs, [lean statement], lineno)]"""
     fns = infix_methods(repo)
     tr = Translator({f.name for f in fns}, manager_params(repo))
     rows = []
     for f in fns:
         params = [a.arg for a in f.args.args[1:]]
-        if f.args.vararg is not None:
-            params.append("*" + f.args.vararg.arg)
+        varargs = f.args.vararg is not None
+        if varargs and params:
+            raise Untranslatable("positional parameters before *args in " + f.name)
         if f.args.kwonlyargs or f.args.kwarg or f.args.defaults or f.args.kw_defaults:
             body = ['(.opaque %s)' % lean_str(ast_hash(f))]
         elif f.name in HAND_MODELLED:
@@ -238,7 +242,7 @@ def table(repo):
                 body = tr.stmts(f.body)
             except Untranslatable:
                 body = ['(.opaque %s)' % lean_str(ast_hash(f))]
-        rows.append((f.name, params, body, f.lineno))
+        rows.append((f.name, params, varargs, body, f.lineno))
     return rows
 
 
@@ -252,9 +256,10 @@ def generate(repo):
            "",
            "def table : Table := ["]
     lines = []
-    for (name, params, body, lineno) in rows:
-        lines.append("  -- fnode.py:%d\n  (%s, ⟨%s, %s⟩)" % (
-            lineno, lean_str(name), lean_list([lean_str(p) for p in params]), lean_list(body)))
+    for (name, params, varargs, body, lineno) in rows:
+        lines.append("  -- fnode.py:%d\n  (%s, ⟨%s, %s, %s⟩)" % (
+            lineno, lean_str(name), lean_list([lean_str(p) for p in params]),
+            "true" if varargs else "false", lean_list(body)))
     out.append(",\n".join(lines))
     out.append("]")
     out.append("")
